@@ -24,7 +24,8 @@ structure WellFormedQR (q : QRCode) : Prop where
 theorem qr_decoded_wf (img : Image) (hw : C06.WellFormed img) (q : QRCode)
     (h : Model.QR.decodeBitmap img = .ok q) :
     WellFormedQR q ∧ img.dx = 17 + 4 * q.version ∧ img.dy = img.dx := by
-  sorry
+  obtain ⟨hv, hl, hm, hs, hx, hy⟩ := (Lemmas.Dec.qr_decodeBitmap_sat img hw.wf).of_ok h
+  exact ⟨⟨hv, hl, hm, hs⟩, hx, hy⟩
 
 /-- QR: a decoded description that fits the symbol re-encodes and decodes to itself -/
 theorem qr_decoded_reencodes (img : Image) (hw : C06.WellFormed img) (q : QRCode)
